@@ -7,6 +7,10 @@ from zvlib import Check, run_lines
 def hexs(b):
     return "x" + b.hex()
 
+def zipfile_names(b):
+    import io, zipfile
+    return zipfile.ZipFile(io.BytesIO(b)).namelist()
+
 class C10(Check):
     pid = "C10"
     rule = ("streamable archives (sizes in the local headers, no encryption) from the reference builder and from the "
@@ -61,6 +65,23 @@ class C10(Check):
         # produced by the crate's writer
         for a in range(10 if self.tier == "quick" else 100):
             out = run_lines(self.exes["debug"], ["zcwrite x 0 255 %s %s" % (hexs(b"w" * a), hexs(b"n%d" % a))], shards=1)[0]
+        # archives from the crate's writer with raw copies in them (their local headers are written once and never patched)
+        import wprog
+        from wprog import Opts
+        srcz, _ = genzip.build([Entry(b"s0", b"raw copy source " * 20, method=8), Entry(b"s1", b"stored source"), Entry(b"s2", b"bz " * 90, method=12)])
+        progs = []
+        for order in ((0, 1, 2), (2, 0), (1,)):
+            ops = [("file", b"first", Opts(method=8)), ("write", b"first entry " * 9)]
+            for k in order:
+                ops.append(("rawcopy", srcz, k, None if k else b"renamed"))
+            ops += [("file", b"last", Opts()), ("write", b"tail"), ("finish",)]
+            progs.append(ops)
+        _, outs_w = wprog.with_tables(self.exes["debug"], [dict(ops=o) for o in progs])
+        for o in outs_w:
+            _, wd = wprog.final_bytes(o)
+            if wd:
+                for p_ in (b"", b"\x00", b"\x03\xff"):
+                    cases.append(("stream_vs_seek %s %s" % (hexs(wd), hexs(p_)), dict(k="vs", expect="ok", n=len(zipfile_names(wd)), pat=p_.hex(), impl_only=True)))
         # must be refused, not mis-read
         for ents in ([Entry(b"p", b"plain"), Entry(b"e", b"secret", password=b"pw")], [Entry(b"p", b"plain"), Entry(b"dd", b"data", method=8, dd="sig32")],
                      [Entry(b"a", b"aes", password=b"pw", aes=(2, 1, bytes(8)))]):
